@@ -423,6 +423,13 @@ pub fn check_all(doc: &str, rules: &str, evals: &mut u64) -> Result<Option<(Obs,
 
 pub fn replay(case: &J) -> CaseResult {
     let mut ev = 0;
+    if case["kind"] == "multi-data" {
+        let docs: Vec<String> = case["docs"].as_array().map(|a| a.iter().map(|x| x.as_str().unwrap_or("").to_string()).collect()).unwrap_or_default();
+        return match check_multi_data(case["rules"].as_str().unwrap_or(""), &docs, &mut ev) {
+            Ok(_) => CaseResult::Pass(Info::default()),
+            Err((msg, sig)) => CaseResult::Fail(Failure { msg, sig, case: case.clone() }),
+        };
+    }
     if case["kind"] == "multi" {
         let files: Vec<String> = case["rules_files"].as_array().map(|a| a.iter().map(|x| x.as_str().unwrap_or("").to_string()).collect()).unwrap_or_default();
         return match check_multi(case["doc"].as_str().unwrap_or(""), &files, &mut ev) {
@@ -555,6 +562,9 @@ pub fn check_multi(doc: &str, files: &[String], evals: &mut u64) -> Result<Optio
     // junit: one testcase per rules file, marked by that file's status
     *evals += 1;
     let r = validate_files(&rps, &dps, &[], &VOpts::structured(Fmt::Junit), "");
+    if r.code != Ok(want_code) {
+        return Err(e(format!("multi-file --structured -o junit: exit {:?}, expected {}", r.code, want_code), "c07:multi:exit-code"));
+    }
     let ju = parse_junit(&r.out).map_err(|x| (format!("multi-file junit: {}", x), "c07:multi:junit".to_string()))?;
     let want_marks: Vec<&str> = file_sts.iter().map(|s| match s { St::Fail => "fail", St::Skip => "skip", St::Pass => "pass" }).collect();
     let got_marks: Vec<&str> = ju.cases.iter().map(|c| c.1).collect();
@@ -594,6 +604,127 @@ fn multi_case(u: &mut Choices, sz: Size) -> CaseResult {
     }
 }
 
+/// several data files, one rules file: every format gives each data file its status and the run
+/// the same exit code
+fn check_multi_data(rules: &str, docs: &[String], evals: &mut u64) -> Result<Option<Vec<St>>, (String, String)> {
+    let e = |m: String, s: &str| (m, s.to_string());
+    let mut sts = vec![];
+    for d in docs {
+        *evals += 1;
+        match verdict(d, rules).0 {
+            Verdict::Ok { file, .. } => sts.push(file),
+            Verdict::EvalErr(_) => return Ok(None),
+            Verdict::ParseErr(x) => return Err(e(format!("generator-invalid: {}", x), "c07:generator-invalid")),
+            Verdict::Panic(p) => return Err(e(format!("panic {}", p), &format!("panic:{}", p.split(' ').next().unwrap_or("")))),
+        }
+    }
+    let want_code = if sts.iter().any(|s| *s == St::Fail) { 19 } else { 0 };
+    let dir = fresh_dir("c07d");
+    let rp = dir.join("r.guard");
+    write_file(&rp, rules);
+    let rps = vec![rp.to_string_lossy().to_string()];
+    let mut dps = vec![];
+    for (i, d) in docs.iter().enumerate() {
+        let p = dir.join(format!("d{}.json", i));
+        write_file(&p, d);
+        dps.push(p.to_string_lossy().to_string());
+    }
+    let want: Vec<&str> = sts.iter().map(|s| s.text()).collect();
+    let mut configs: Vec<(String, VOpts)> = vec![
+        ("console -S all".into(), VOpts::plain(Fmt::Single, vec![Show::All])),
+        ("console -S none".into(), VOpts::plain(Fmt::Single, vec![Show::None])),
+        ("plain -o json".into(), VOpts::plain(Fmt::Json, vec![Show::None])),
+        ("plain -o yaml".into(), VOpts::plain(Fmt::Yaml, vec![Show::None])),
+    ];
+    for f in [Fmt::Json, Fmt::Yaml, Fmt::Junit, Fmt::Sarif] {
+        configs.push((format!("--structured -o {}", f.flag()), VOpts::structured(f)));
+    }
+    for (what, o) in &configs {
+        *evals += 1;
+        let r = validate_files(&rps, &dps, &[], o, "");
+        if let Some(p) = &r.panic {
+            return Err(e(format!("multi-data {}: panic {}", what, p), &format!("panic:{}", p.split(' ').next().unwrap_or(""))));
+        }
+        if r.code != Ok(want_code) {
+            return Err(e(format!("multi-data {}: exit {:?}, but the data files are {:?}", what, r.code, want), "c07:multi-data:exit-code"));
+        }
+        if o.structured && matches!(o.fmt, Fmt::Json | Fmt::Yaml) {
+            let j: J = if o.fmt == Fmt::Json { serde_json::from_str(&r.out).map_err(|x| e(format!("multi-data {}: not JSON: {}", what, x), "c07:multi-data:parse"))? } else { serde_yaml::from_str(&r.out).map_err(|x| e(format!("multi-data {}: not YAML: {}", what, x), "c07:multi-data:parse"))? };
+            let got: Vec<String> = dps.iter().map(|p| j.as_array().and_then(|a| a.iter().find(|r| r["name"].as_str() == Some(p.as_str()))).and_then(|r| r["status"].as_str()).unwrap_or("missing").to_string()).collect();
+            if got != want {
+                return Err(e(format!("multi-data {}: per-file statuses {:?}, expected {:?}", what, got, want), "c07:multi-data:status"));
+            }
+        }
+        if o.structured && o.fmt == Fmt::Junit {
+            let ju = parse_junit(&r.out).map_err(|x| e(format!("multi-data junit: {}", x), "c07:multi-data:junit"))?;
+            let fails = ju.cases.iter().filter(|c| c.1 == "fail").count();
+            let want_fails = sts.iter().filter(|s| **s == St::Fail).count();
+            if fails != want_fails || ju.failures_attr.map_or(false, |f| f != fails) {
+                return Err(e(format!("multi-data junit: {} failing testcases, failures attribute {:?}, but {} data files FAIL", fails, ju.failures_attr, want_fails), "c07:multi-data:junit"));
+            }
+        }
+        if !o.structured && o.fmt == Fmt::Single && o.show == vec![Show::All] {
+            let txt = strip_ansi(&r.out);
+            for (p, w) in dps.iter().zip(&want) {
+                let line = format!("{} Status = {}", p, w);
+                if !txt.lines().any(|l| l.trim_end() == line) {
+                    return Err(e(format!("multi-data console: no line {:?}", line), "c07:multi-data:console"));
+                }
+            }
+        }
+    }
+    Ok(Some(sts))
+}
+
+fn multi_data_case(u: &mut Choices, sz: Size) -> CaseResult {
+    let mut doc = gen_cfn_doc(u, &sz);
+    let mut sz = sz;
+    sz.alt_case = u.chance(1, 3);
+    if sz.alt_case {
+        add_case_families(u, &mut doc);
+    }
+    let mut f = gen_wide_file(u, &doc, sz, false);
+    // half of the cases: every rule is guarded by a marker key, so that data files without the
+    // marker are SKIP whatever else they hold (a failing file is then often followed by a quiet one)
+    let guarded = u.chance(1, 2);
+    if guarded {
+        for r in f.rules.iter_mut() {
+            r.when = Some(vec![vec![Item::Clause(cl_un(q_key(&["mk"]), UnOp::Exists, false))]]);
+        }
+    }
+    let rules = print_file(&f);
+    let n = u.range(2, 3);
+    let mut dvs = vec![doc.clone()];
+    for _ in 1..n {
+        dvs.push(super::c02::vary_doc(u, &doc, &sz));
+    }
+    let rot = u.below(n);
+    dvs.rotate_left(rot);
+    if guarded {
+        for d in dvs.iter_mut() {
+            if let (V::Map(m), true) = (d, u.chance(1, 2)) {
+                m.push(("mk".into(), V::Int(1)));
+            }
+        }
+    }
+    let docs: Vec<String> = dvs.iter().map(|d| d.to_json()).collect();
+    let mut evals = 0;
+    match check_multi_data(&rules, &docs, &mut evals) {
+        Ok(None) => CaseResult::Discard("evaluation-error"),
+        Ok(Some(sts)) => {
+            let last_ok_earlier_fail = sts.last() != Some(&St::Fail) && sts.iter().any(|s| *s == St::Fail);
+            CaseResult::Pass(Info {
+                nontrivial: sts.iter().collect::<BTreeSet<_>>().len() >= 2,
+                key: hash_case(&[&rules, &docs.join("\u{1}")]),
+                classes: vec![format!("multi-data:{}", n), format!("multi-data:failing-file-not-last:{}", last_ok_earlier_fail)],
+                evals,
+                sample: Some(json!({"rules": rules, "docs": docs})),
+            })
+        }
+        Err((msg, sig)) => CaseResult::Fail(Failure { msg, sig, case: json!({"kind": "multi-data", "rules": rules, "docs": docs}) }),
+    }
+}
+
 /// reports that exceed 8 KiB / 64 KiB (buffer boundaries)
 fn big_case(i: usize) -> CaseResult {
     let sizes = [3usize, 10, 12, 40, 100, 300, 700];
@@ -611,13 +742,14 @@ fn big_case(i: usize) -> CaseResult {
 
 pub fn run(tier: Tier, seed: u64) -> i32 {
     let spec = EvidenceSpec {
-        rule: "Random wide programs x CloudFormation-shaped JSON documents, one (rules file, data file) pair per case, rendered in ~27 configurations: console summary table with -S all|pass|fail|skip|pass,fail|none and -v; plain -o json and -o yaml; -p record; --structured -o json|yaml through -r/-d files, data on stdin and --payload (plus the console table through stdin and payload); --structured -o junit and -o sarif; run_checks(verbose=false). From each output the PASS/FAIL/SKIP sets, the file status and the exit code are extracted and must equal those of the library's verbose record; YAML must denote the same data as the JSON of the same run; JUnit must be well-formed with consistent counters and marks; SARIF must have one result per failing leaf check of the JSON report. Stage 'multi-file': 2-3 rules files (a third of them with every rule skipped) against one data file: the union of the PASS/FAIL/SKIP sets and the exit code must be the same in the console tables, plain -o json, --structured json/yaml, and JUnit marks per rules file. Stage 'big' uses reports of 3..700 failing elements (beyond 8 KiB and 64 KiB). Non-trivial: at least one FAIL rule and one rule of another status; distinct by hash of the texts.".into(),
+        rule: "Random wide programs x CloudFormation-shaped JSON documents, one (rules file, data file) pair per case, rendered in ~27 configurations: console summary table with -S all|pass|fail|skip|pass,fail|none and -v; plain -o json and -o yaml; -p record; --structured -o json|yaml through -r/-d files, data on stdin and --payload (plus the console table through stdin and payload); --structured -o junit and -o sarif; run_checks(verbose=false). From each output the PASS/FAIL/SKIP sets, the file status and the exit code are extracted and must equal those of the library's verbose record; YAML must denote the same data as the JSON of the same run; JUnit must be well-formed with consistent counters and marks; SARIF must have one result per failing leaf check of the JSON report. Stage 'multi-file': 2-3 rules files (a third of them with every rule skipped) against one data file: the union of the PASS/FAIL/SKIP sets and the exit code must be the same in the console tables, plain -o json, --structured json/yaml, and JUnit marks per rules file. Stage 'multi-data': one rules file against 2-3 data files (variants of one another, the failing one often not last): console -S all / none, plain -o json / yaml and --structured json / yaml / junit / sarif must all exit with the same code (19 iff some data file is FAIL in the library's record), structured reports must give each data file its status, JUnit's failing testcases and failures attribute must count the FAIL files, the console must print `<file> Status = <status>` per file. Stage 'big' uses reports of 3..700 failing elements (beyond 8 KiB and 64 KiB). Non-trivial: at least one FAIL rule and one rule of another status; distinct by hash of the texts.".into(),
         assumptions: vec!["only syntactically valid rules files and evaluations without error are compared (a verdict is defined only for those; error exits are judged by C06)".into()],
     };
     execute("C07", tier, seed, spec, &replay, &|run: &Session| {
         run.run_enum("big", 7, big_case);
         let sz = tier.pick(Size::quick(), Size::thorough());
         run.run_random("multi-file", tier.pick(6_000, 150_000), tier.pick(2500, 4000), |u| multi_case(u, sz));
+        run.run_random("multi-data", tier.pick(6_000, 150_000), tier.pick(2000, 3200), |u| multi_data_case(u, sz));
         run.run_random("formats", tier.pick(8_000, 200_000), tier.pick(1200, 2400), |u| random_case(u, sz));
     })
 }
